@@ -96,7 +96,7 @@ Classes == [
                    schema_settings |-> {"absent", "empty"},
                    message_retention_duration |-> DurB],
   UpdateTopic |-> [topic |-> {"absent"} \cup Name, update_mask |-> TopicMask, labels |-> Labels],
-  Publish |-> [topic |-> Name, messages |-> {"none", "one", "emptymsg", "many"},
+  Publish |-> [topic |-> Name, messages |-> {"none", "one", "emptymsg", "many", "lastbad"},   \* lastbad: valid messages followed by one the server rejects
                data |-> Payload, attributes |-> Labels, ordering_key |-> {"empty", "set"}],
   GetTopic |-> [topic |-> Name],
   ListTopics |-> [project |-> Name, page_size |-> IntB, page_token |-> PageTok],
